@@ -15,7 +15,7 @@ func init() { registry["C17"] = propC17 }
 func propC17() *Property {
 	return &Property{
 		ID:          "C17",
-		Explanation: "Static guard and shape rules on package object. Decided: (R1) every conversion from a floating-point to an integer type in the module is dominated by a lower and an upper range test on the converted value (Go leaves out-of-range results implementation-defined) and, in GetNumber, by the integrality test; (R2) package object cannot panic: every type assertion is comma-ok, there is no indexing, slicing, map write or explicit panic; (R3) the non-error result of GetString is the result of ansi.Scrub and known non-empty, the empty case returns the 'absent' sentinel, and GetTime/GetURL/GetMediaType/GetMarkup obtain their text only through GetString; (R4) getPrimitive returns 'absent' (wrapping ErrKeyNotPresent) exactly on the missing-key/null edges, 'wrong type' on the failed-assertion edge and the asserted value itself on success; no other error wraps the 'absent' sentinel; no accessor returns a non-nil error together with a non-zero value; (R5) GetList returns the list itself or a one-element literal holding the value. (R4, addition) the document map is read (index, range) only inside getPrimitive; (R6) the sanitiser behind GetString is total (same rule as C01.R4); (R7) pointer-valued accessors return a non-nil value whenever they return a nil error, through their helpers. Not decided: time.Parse, url.Parse, the media-type regexp, encoding/json's number decoding, and the exact numeric value preserved by the conversion (value semantics).",
+		Explanation: "Static guard and shape rules on package object. Decided: (R1) every conversion from a floating-point to an integer type in the module is dominated by a lower and an upper range test on the converted value (Go leaves out-of-range results implementation-defined) and, in GetNumber, by the integrality test; (R2) package object cannot panic: every type assertion is comma-ok, there is no indexing, slicing, map write or explicit panic; (R3) the non-error result of GetString is the result of ansi.Scrub and known non-empty, the empty case returns the 'absent' sentinel, and GetTime/GetURL/GetMediaType/GetMarkup obtain their text only through GetString; (R4) getPrimitive returns 'absent' (wrapping ErrKeyNotPresent) exactly on the missing-key/null edges, 'wrong type' on the failed-assertion edge and the asserted value itself on success; no other error wraps the 'absent' sentinel; no accessor returns a non-nil error together with a non-zero value; (R5) GetList returns the list itself or a one-element literal holding the value. (R4, addition) the document map is read (index, range) only inside getPrimitive; (R6) the sanitiser behind GetString is total (same rule as C01.R4); (R7) pointer-valued accessors return a non-nil value whenever they return a nil error, through their helpers; (R8) what GetNumber returns next to a nil error is the uint64 conversion of the very float64 it took out of the document (not a value that went through text, another float width or arithmetic). Not decided: time.Parse, url.Parse, the media-type regexp, encoding/json's number decoding, and the exact numeric value preserved by the conversion (value semantics).",
 		Assumptions: []string{"encoding/json decodes numbers into float64, arrays into []any, objects into map[string]any"},
 		Rules: []Rule{
 			{ID: "C17.R1", Title: "float→integer conversions are range-guarded", Floor: 3, Run: c17R1},
@@ -25,6 +25,7 @@ func propC17() *Property {
 			{ID: "C17.R5", Title: "single values are promoted to one-element lists", Floor: 1, Run: c17R5},
 			{ID: "C17.R6", Title: "the sanitiser behind GetString filters every rune on every path", Floor: 1, Run: scrubIsTotal},
 			{ID: "C17.R7", Title: "an accessor that reports no error hands out a usable value", Floor: 2, Run: c17R7},
+			{ID: "C17.R8", Title: "the number GetNumber hands out is the conversion of the document's own double", Floor: 1, Run: c17R8},
 		},
 	}
 }
@@ -683,5 +684,77 @@ func c17R7(c *Ctx) {
 			c.check(nn.producerSound(fn, i), name+"/value-with-nil-error", P.Pos(fn.Pos()), name, "result #"+fmt.Sprint(i)+" is non-nil whenever the error is nil",
 				"the accessor can return a nil "+typeString(res.At(i).Type())+" together with a nil error: success without a value, dereferenced by the first user")
 		}
+	}
+}
+
+// c17R8: "exactly the value the JSON number has when read as an IEEE-754
+// double". The structural part: what GetNumber returns next to a nil error is
+// the integer conversion of the very float64 it took out of the document
+// (possibly through math.Trunc, equal to it under the integrality test that R1
+// demands) — not a value that went through text (strconv.FormatFloat prints the
+// shortest decimal that round-trips, not the double's exact value: 2^63 comes
+// back as 9223372036854776000), through another float width, or arithmetic.
+// That the conversion itself is exact is R1 (range and integrality known).
+func c17R8(c *Ctx) {
+	P := c.P
+	fn := P.Method("servitor/object", "Object", "GetNumber")
+	fname := FuncName(fn)
+	fromDocument := func(v ssa.Value) bool {
+		for d := 0; d < 4; d++ {
+			v = unwrapLoad(v)
+			if call, ok := v.(*ssa.Call); ok && (isLibCall(&call.Call, "math", "", "Trunc")) {
+				v = call.Call.Args[0]
+				continue
+			}
+			ex, ok := v.(*ssa.Extract)
+			if !ok || ex.Index != 0 {
+				return false
+			}
+			call, ok := ex.Tuple.(*ssa.Call)
+			if !ok {
+				return false
+			}
+			sc := call.Call.StaticCallee()
+			return sc != nil && P.PkgOf(sc) == "servitor/object" && strings.HasPrefix(sc.Name(), "getPrimitive") && isFloat(ex.Type())
+		}
+		return false
+	}
+	var check func(v ssa.Value, d int) bool
+	check = func(v ssa.Value, d int) bool {
+		v = unwrapLoad(v)
+		if ph, ok := v.(*ssa.Phi); ok && d < 4 {
+			for _, e := range ph.Edges {
+				if !check(e, d+1) {
+					return false
+				}
+			}
+			return true
+		}
+		cv, ok := v.(*ssa.Convert)
+		if !ok || !isFloat(cv.X.Type()) || !isInteger(cv.Type()) {
+			return false
+		}
+		if b, isB := cv.X.Type().Underlying().(*types.Basic); !isB || b.Kind() != types.Float64 {
+			return false
+		}
+		return fromDocument(cv.X)
+	}
+	n := 0
+	for _, b := range fn.Blocks {
+		ret, ok := b.Instrs[len(b.Instrs)-1].(*ssa.Return)
+		if !ok || len(ret.Results) != 2 {
+			continue
+		}
+		if !isNilConst(ret.Results[1]) {
+			if provablyNonNilErr(ret.Results[1], b, 0) {
+				continue
+			}
+		}
+		n++
+		c.check(check(ret.Results[0], 0), fname+"/value", P.InstrPos(ret), fname, "returns uint64(x) of the float64 x taken out of the document",
+			"GetNumber hands out a number that is not the direct conversion of the document's float64 (it went through text, another width or arithmetic): for large values the result differs from the JSON number read as a double")
+	}
+	if n == 0 {
+		c.bad(fname+"/value", P.Pos(fn.Pos()), fname, "GetNumber has no return that accepts a number")
 	}
 }
